@@ -280,7 +280,10 @@ def prereq_violations(prog, pre, post, rerun=False):
         p = pre_t.get(t['id'])
         if reverse:
             if p is None:
-                for r in spec.get('requires') or []:
+                reqs = set(spec.get('requires') or []) | set(
+                    (prog.get('task-defaults') or {}).get('requires') or [])
+                reqs.discard(t['name'])
+                for r in sorted(reqs):
                     ok = any(x['state'] == 'SUCCESS'
                              for x in by_name.get(r, []))
                     if not ok:
